@@ -8,10 +8,11 @@ const verifMs = int64(1000000)
 
 // verifC16Xpoa: for every configuration (enumerated) and every nanosecond
 // timestamp (symbolic) the triple computed by minerScheduling(t, n) satisfies
-//   start(term,pos,bp) = (term-1)*n*blockNum*period + pos*blockNum*period + (bp-1)*period
-//   (1) 1<=term, 0<=pos<n, 1<=bp<=blockNum and T in [start, start+period]
-//   (2) T strictly inside the window of ANY in-range (term',pos',bp') => those are the computed indices
-//   (3) the windows tile time in order with no gap: next slot / producer / term starts where the previous ends.
+//
+//	start(term,pos,bp) = (term-1)*n*blockNum*period + pos*blockNum*period + (bp-1)*period
+//	(1) 1<=term, 0<=pos<n, 1<=bp<=blockNum and T in [start, start+period]
+//	(2) T strictly inside the window of ANY in-range (term',pos',bp') => those are the computed indices
+//	(3) the windows tile time in order with no gap: next slot / producer / term starts where the previous ends.
 func verifC16Xpoa(periods, blockNums []int64, maxN int) {
 	p := periods[vrt.Choice("period", len(periods))]
 	B := blockNums[vrt.Choice("blockNum", len(blockNums))]
@@ -31,6 +32,17 @@ func verifC16Xpoa(periods, blockNums []int64, maxN int) {
 	st := start(term, pos, bp)
 	vrt.Assert(st <= T && T <= st+p, "inside-its-window")
 
+	// the producer GetLocalLeader names (what CheckMinerMatch compares the block's proposer with) is the
+	// owner under the set in force at the block's height - here the initial set, n members - whatever
+	// the size of the set this node has cached from its own tip
+	names := []string{"v0", "v1", "v2", "v3", "v4"}
+	s.initValidators = names[:n]
+	s.validators = []string{"c0", "c1", "c2", "c3", "c4"}[:1+vrt.Choice("cached-validators", maxN)]
+	leader := s.GetLocalLeader(t, 2, nil)
+	for j := int64(0); j < n; j++ {
+		vrt.Assert(pos != j || leader == names[j], "leader-is-the-owner-under-the-set-in-force")
+	}
+
 	term2 := vrt.Int("term2", 1, 2000000000000)
 	pos2 := vrt.Int("pos2", 0, n-1)
 	bp2 := vrt.Int("bp2", 1, B)
@@ -46,5 +58,7 @@ func verifC16Xpoa(periods, blockNums []int64, maxN int) {
 	vrt.Assert(start(term2+1, 0, 1) == start(term2, n-1, B)+p, "next-term-adjacent")
 }
 
-func VerifC16XpoaQuick()    { verifC16Xpoa([]int64{3000, 500, 7}, []int64{1, 3, 10}, 3) }
-func VerifC16XpoaThorough() { verifC16Xpoa([]int64{3000, 500, 7, 1, 1000}, []int64{1, 2, 3, 10, 20}, 5) }
+func VerifC16XpoaQuick() { verifC16Xpoa([]int64{3000, 500, 7}, []int64{1, 3, 10}, 3) }
+func VerifC16XpoaThorough() {
+	verifC16Xpoa([]int64{3000, 500, 7, 1, 1000}, []int64{1, 2, 3, 10, 20}, 5)
+}
